@@ -4,7 +4,7 @@ from __future__ import annotations
 from vf import refpredict
 from vf.core import Clause, Property, Violation
 from vf.gauss import M
-from vf.osk import guarded, mk_model, mk_teams
+from vf.osk import guarded, mk_model, mk_teams, model_for
 from vf.predgen import pred_cases, pred_labels
 
 TOL = M("1e-9")
@@ -15,7 +15,7 @@ def check_c12(case, ctx):
     kind = cfg["kind"]
     beta = cfg["beta"]
     n = len(teams)
-    m = mk_model(cfg)
+    m = model_for(cfg, case)
     win = guarded(m.predict_win, mk_teams(m, teams), what="predict_win")
     draw = guarded(m.predict_draw, mk_teams(m, teams), what="predict_draw")
     rank = guarded(m.predict_rank, mk_teams(m, teams), what="predict_rank")
